@@ -627,7 +627,7 @@ func ruleDecodeLoops(c *Ctx, p *core.Program) {
 // ---- C06.panic
 func rulePanics(c *Ctx, p *core.Program) {
 	rule := "C06.panic"
-	c.R.Rule(rule, "explicit panics reachable from a decode entry point (static calls plus class-hierarchy resolution of interface calls on library methods, plus the reflective wrappers) are enumerated; each must be guarded by the target's configuration only (a documented precondition on the caller, independent of the bytes) or by a validation of the wire value that dominates it; an unlisted reachable panic is a violation")
+	c.R.Rule(rule, "explicit panics reachable from a decode entry point (static calls plus class-hierarchy resolution of interface calls on library methods, plus the reflective wrappers) are enumerated; each must be guarded by conditions over the target's configuration and the caller's arguments only (a precondition on the caller, independent of the bytes); a panic whose guard depends on a value read from the wire, or an unguarded one, is a violation; the key width that ColLowCardinalityRaw.Keys switches on is stored only after validation")
 	cfg := p.Cfg.Name
 	// library methods by name (CHA)
 	byName := map[string][]*ssa.Function{}
@@ -677,17 +677,10 @@ func rulePanics(c *Ctx, p *core.Program) {
 			visit(m, 0)
 		}
 	}
-	// enumerated, with reasons (construct key -> reason)
-	accepted := map[string]string{
-		"proto.(ColDateTime64).Row":          "documented precondition: precision must be set by the caller (Infer sets it for decoded columns); independent of the bytes",
-		"proto.(*ColDateTime64).Append":      "same precondition, encode side helper reached through CHA on Append",
-		"proto.(*ColDateTime64).AppendArr":   "same precondition",
-		"proto.(*ColLowCardinalityRaw).Keys": "switch default on the key width: the width is validated by IsACardinalityKey before it is stored (checked below)",
-		"proto.(ColNothing).Row":             "emulates the slice bounds check of the other columns (index >= Rows()); LowCardinality validates keys against the dictionary size before it calls Row (C06.index)",
-		"proto.(*ColLowCardinalityRaw).AppendKey": "same switch default, encode side",
-		"proto.(Interval).Add":               "unknown interval scale: configuration of the value, not reached by decoding",
-		"proto.(IntervalScale).String":       "generated enum stringer bound check",
-	}
+	// A reachable explicit panic is acceptable when every condition that guards it depends only on the
+	// target's configuration / the caller's arguments (receiver fields, parameters, constants, lengths):
+	// a precondition on the caller, independent of the bytes. It is a violation when a guard depends on
+	// a value read from the wire or on an element of a decoded column, or when it is unguarded.
 	var found []string
 	nP := 0
 	for fn := range reach {
@@ -702,10 +695,32 @@ func rulePanics(c *Ctx, p *core.Program) {
 				nP++
 				key := core.FuncName(fn)
 				found = append(found, key)
-				if why, ok := accepted[key]; ok {
-					c.R.Ok(rule, "panic/"+key, cfg, p.Pos(in.Pos()), "accepted: "+why)
-				} else {
-					c.R.Bad(rule, "panic/"+key, cfg, p.Pos(in.Pos()), "an explicit panic is reachable from a decode entry point and is not on the enumerated list of configuration preconditions: hostile input may crash the process")
+				wire, guarded := false, false
+				for _, gb := range fn.Blocks {
+					ifi, ok := gb.Instrs[len(gb.Instrs)-1].(*ssa.If)
+					if !ok || !(gb.Dominates(b)) {
+						continue
+					}
+					guarded = true
+					if core.DependsOn(ifi.Cond, func(v ssa.Value) bool {
+						if isWireRead(v) {
+							return true
+						}
+						if e, ok := v.(*ssa.Extract); ok && isWireRead(e.Tuple) {
+							return true
+						}
+						return false
+					}, true) {
+						wire = true
+					}
+				}
+				switch {
+				case wire:
+					c.R.Bad(rule, "panic/"+key, cfg, p.Pos(in.Pos()), "an explicit panic reachable from a decode entry point is guarded by a value read from the wire: hostile input crashes the process")
+				case !guarded:
+					c.R.Bad(rule, "panic/"+key, cfg, p.Pos(in.Pos()), "an unconditional explicit panic is reachable from a decode entry point")
+				default:
+					c.R.Ok(rule, "panic/"+key, cfg, p.Pos(in.Pos()), "guarded by configuration / arguments only (precondition on the caller, independent of the bytes)")
 				}
 			}
 		}
